@@ -69,7 +69,7 @@ def change(c):
 
 
 def problem(p):
-    return "(mkP %s %s %s %s)" % (S(p["obj"]), C.cq_bool(p["is_error"]), S(p["reason"]), S(p["msg"]))
+    return "(mkP %s %s %s %s %s)" % (S(p["obj"]), S(p.get("uid", "")), C.cq_bool(p["is_error"]), S(p["reason"]), S(p["msg"]))
 
 
 def view(m):
